@@ -134,6 +134,32 @@ Example C13_pull_real_autostash :
     [ERenameWorkingLog 10 21; ERebaseComplete 10 21 false [10] [21]].
 Proof. exact pull_real_autostash_agrees. Qed.
 
+(* the cherry_pick_hook_state file: an ordinary commit agrees with the wrapper from ANY unmasked side state and leaves no
+   such file (the ordinary pre-commit arm clears a left-over one: GenModes.precommit_ordinary_arm_captures) *)
+Theorem C13_commit_clears_cherry_pick_state : forall f st,
+  wf_firing CCommit f = true -> Known_C13 CCommit f = false -> s_mask st = false ->
+  effects f (fst (hook_events (git_fires CCommit f) st)) = effects f (wrap_events CCommit f) /\
+  s_cp (snd (hook_events (git_fires CCommit f) st)) = None /\ s_mask (snd (hook_events (git_fires CCommit f) st)) = false.
+Proof. exact commit_from_any_state. Qed.
+Print Assumptions C13_commit_clears_cherry_pick_state.
+
+(* the file IS left behind by a commit attempt that git aborts after pre-commit while a cherry-pick is stopped ... *)
+Theorem C13_commit_attempt_leaves_cherry_pick_state :
+  wf_firing CCommit wit_cp_commit_aborted = true /\
+  s_cp (snd (hook_events (git_fires CCommit wit_cp_commit_aborted) init)) = Some (31, 10).
+Proof. exact commit_attempt_leaves_cp_state. Qed.
+Print Assumptions C13_commit_attempt_leaves_cherry_pick_state.
+
+(* ... and the ordinary commit after `cherry-pick --abort` is still recorded as a commit, the side state is cleared *)
+Theorem C13_abandoned_cherry_pick :
+  let cmds := [(CCommit, wit_cp_commit_aborted); (CCherryPickAbort, wit_cp_abort_after); (CCommit, wit_commit_after_abandoned)] in
+  Forall (fun x => wf_firing (fst x) (snd x) = true) cmds /\
+  skipn 1 (fst (run_hooks cmds init)) = [ECommit (Some 10) 11] /\
+  run_wrap [(CCommit, wit_commit_after_abandoned)] = [EPreCommitCheckpoint; ECommit (Some 10) 11] /\
+  snd (run_hooks cmds init) = init.
+Proof. exact abandoned_cherry_pick_sequence. Qed.
+Print Assumptions C13_abandoned_cherry_pick.
+
 Example C13_nonvacuous : wf_firing CRebase wit_rebase2 = true /\ Known_C13 CRebase wit_rebase2 = false /\
   effects wit_rebase2 (wrap_events CRebase wit_rebase2) = [ERebaseComplete 12 22 false [11; 12] [21; 22]] /\
   effects wit_rebase2 (fst (hook_events (git_fires CRebase wit_rebase2) init)) = [ERebaseComplete 12 22 false [11; 12] [21; 22]].
